@@ -235,11 +235,14 @@ pub fn window_set(w: usize) -> Vec<Vec<f64>> {
         0 => vec![vec![1.0]],
         1 => vec![vec![1.0], vec![-0.5, 0.0, 0.5]],
         2 => vec![vec![1.0], vec![-0.5, 0.0, 0.5], vec![1.0, -2.0, 1.0]],
-        _ => vec![
+        3 => vec![
             vec![1.0],
             vec![-0.2, -0.1, 0.0, 0.1, 0.2],
             vec![0.285714, -0.142857, -0.285714, -0.142857, 0.285714],
         ],
+        // mixed widths: width-3 delta with width-5 delta-delta, and the reverse
+        4 => vec![vec![1.0], vec![-0.5, 0.0, 0.5], vec![0.285714, -0.142857, -0.285714, -0.142857, 0.285714]],
+        _ => vec![vec![1.0], vec![-0.2, -0.1, 0.0, 0.1, 0.2], vec![1.0, -2.0, 1.0]],
     }
 }
 
